@@ -424,6 +424,9 @@ def run(ctx):
     import rule as _R2
     _c15m.matchers(_R2.View(ctx, {'T1': 'O3', 'T2': 'O3', 'T3': 'O3'}), bindings, only=('asefile::parse::parse_chunk_type',))
 
+    import C09 as _c09p
+    import rule as _R9
+    _c09p.parent_search(_R9.View(ctx, {'V4': 'O1', 'V5': 'O1'}))     # every legal layer forest is accepted: the parent of a layer is ANY nearest shallower one (seed C01-m wanted level - 1 exactly)
     common.arm_state_independence(ctx, 'O3')
     common.rejection_inventory(ctx, 'O3')
 
